@@ -59,9 +59,13 @@ type Script struct {
 	// request stream, gzip accepted for the response). Duplex: the client
 	// sends and receives concurrently (one sender, one receiver goroutine).
 	// MsgSize > 0 gives every request message a payload of that many bytes.
-	Gzip    bool `json:"gzip,omitempty"`
-	Duplex  bool `json:"duplex,omitempty"`
-	MsgSize int  `json:"msg_size,omitempty"`
+	Gzip bool `json:"gzip,omitempty"`
+	// Enc: a message encoding announced without compressing: "identity"
+	// (legal; grpc.UseCompressor(encoding.Identity) / raw grpc-encoding
+	// header). gRPC and gRPC-web fronts.
+	Enc     string `json:"enc,omitempty"`
+	Duplex  bool   `json:"duplex,omitempty"`
+	MsgSize int    `json:"msg_size,omitempty"`
 
 	// ReqSize gives size classes to request messages by position ("" normal,
 	// "empty": encodes to zero bytes, "tiny": two bytes); RepEmpty / RepTiny
@@ -88,6 +92,9 @@ func (s *Script) String() string {
 	meta := ""
 	if s.Gzip {
 		meta += " gzip"
+	}
+	if s.Enc != "" {
+		meta += " grpc-encoding=" + s.Enc
 	}
 	if s.Duplex {
 		meta += fmt.Sprintf(" duplex size=%d", s.MsgSize)
@@ -573,6 +580,29 @@ func sizeScripts(rng *rand.Rand, fronts []string) []*Script {
 	return out
 }
 
+// encScripts: the identity encoding announced explicitly on every shape of
+// the gRPC and gRPC-web fronts, OK and failing.
+func encScripts(rng *rand.Rand) []*Script {
+	var out []*Script
+	for _, front := range []string{"grpc", "web"} {
+		byShape := map[string][]structure{}
+		for _, st := range structures(front) {
+			if st.NMsg > 0 {
+				byShape[st.Shape] = append(byShape[st.Shape], st)
+			}
+		}
+		for _, shape := range []string{"unary", "ss", "cs", "bidi"} {
+			g := byShape[shape]
+			for k := 0; k < 3; k++ {
+				s := materialise(rng, g[rng.Intn(len(g))])
+				s.Gzip, s.MixFlags, s.Enc = false, false, "identity"
+				out = append(out, s)
+			}
+		}
+	}
+	return out
+}
+
 // pipelined enumerates the full-duplex scripts: a bidi echo in which the
 // client keeps sending (its own goroutine) while the replies flow back, with
 // and without compression, so that both directions of the proxy work at the
@@ -713,6 +743,9 @@ func materialise(rng *rand.Rand, st structure) *Script {
 	if !s.Duplex && !s.HTTPGet && s.Front != "ws" && rng.Intn(4) == 0 {
 		s.Gzip = true
 	}
+	if !s.Gzip && (s.Front == "grpc" || s.Front == "web") && rng.Intn(5) == 0 {
+		s.Enc = "identity"
+	}
 	if http1(&s) {
 		if rng.Intn(4) == 0 {
 			s.Hop = hopClasses[rng.Intn(len(hopClasses))]
@@ -763,6 +796,7 @@ func Cases(rng *rand.Rand, thorough bool) []*Script {
 		}
 		for k := 0; k < 3; k++ {
 			list = append(list, sizeScripts(rng, []string{"grpc", "web", "http"})...)
+			list = append(list, encScripts(rng)...)
 		}
 		// WebSocket scripts: every structure six times; connection-header
 		// scripts: three draws
@@ -833,6 +867,7 @@ func Cases(rng *rand.Rand, thorough bool) []*Script {
 	}
 	// empty / tiny messages at every position x compression x front
 	list = append(list, sizeScripts(rng, []string{"grpc", "web", "http"})...)
+	list = append(list, encScripts(rng)...)
 	// connection-header scripts (every class x shape x real / in-process) and
 	// a third of the WebSocket structures
 	list = append(list, hopScripts(rng)...)
